@@ -294,6 +294,9 @@ def _norm(s: S) -> S:
     if o in ("loopvar", "iter"):
         return s  # keep the loop identity (tag) so that loop bodies stay attached
     args = [norm(a) for a in s.args]
+    if o == "meth" and len(args) == 3 and args[1] == "size" and isinstance(args[2], S) and args[2].op == "const" and isinstance(args[2].args[0], int):
+        # x.size(k) and x.shape[k] are one quantity
+        return mk("sub", mk("attr", args[0], "shape"), args[2])
     if o in ("&", "|", "and", "or", "^"):
         args = sorted(args, key=lambda x: x.id if isinstance(x, S) else -1)
     return mk(o, *args)
@@ -304,8 +307,21 @@ def _norm(s: S) -> S:
 CMP_OPS = {"<", "<=", ">", ">=", "==", "!="}
 
 
+_MIRROR = {"<": ">", "<=": ">=", ">": "<", ">=": "<=", "==": "==", "!=": "!="}
+
+
 def _cmp_raw(s: S):
-    """-> (lhs, op, rhs) for comparison-like nodes (operators and torch.lt/le/gt/ge/eq/ne)."""
+    """-> (lhs, op, rhs) for comparison-like nodes (operators and torch.lt/le/gt/ge/eq/ne).  A literal on the left is moved to
+    the right with the mirrored operator (`0 < x` is read as `x > 0`), so the idiom recognisers see one orientation."""
+    r = _cmp_raw0(s)
+    if r is not None:
+        lhs, op, rhs = r
+        if isinstance(lhs, S) and lhs.op == "const" and not (isinstance(rhs, S) and rhs.op == "const"):
+            return rhs, _MIRROR[op], lhs
+    return r
+
+
+def _cmp_raw0(s: S):
     if s.op in CMP_OPS:
         return s.args[0], s.op, s.args[1]
     if s.op == "meth" and s.args[1] in ("lt", "le", "gt", "ge", "eq", "ne") and len(s.args) == 3:
@@ -900,3 +916,32 @@ def bool_signs(s, name: str, sign: int = +1, out: Optional[set] = None, depth: i
     if name in _vg.params_of(s):
         out.add(0)
     return out
+
+
+def dim_of(a):
+    """(tensor, k) when `a` is tensor.shape[k] or tensor.size(k) with a constant k, else None"""
+    if isinstance(a, S) and a.op == "sub" and isinstance(a.args[0], S) and a.args[0].op == "attr" and a.args[0].args[1] == "shape" and isinstance(a.args[1], S) and a.args[1].op == "const":
+        return a.args[0].args[0], a.args[1].args[0]
+    if isinstance(a, S) and a.op == "meth" and a.args[1] == "size" and len(a.args) == 3 and isinstance(a.args[2], S) and a.args[2].op == "const":
+        return a.args[0], a.args[2].args[0]
+    return None
+
+
+def axis_arg(n):
+    """The axis operand of a reduction / shape call in either spelling:
+    x.m(k), x.m(dim=k), torch.f(x, k), torch.f(x, dim=k).  None when no axis is named."""
+    if not isinstance(n, S) or n.op not in ("meth", "call"):
+        return None
+    rest = n.args[2:]
+    for x in rest:
+        if isinstance(x, S) and x.op == "kw" and x.args[0] in ("dim", "axis"):
+            return x.args[1]
+    for x in rest:
+        if not (isinstance(x, S) and x.op == "kw"):
+            return x
+    return None
+
+
+def axis_is(n, k) -> bool:
+    a = axis_arg(n)
+    return isinstance(a, S) and a.op == "const" and a.args[0] == k and not isinstance(a.args[0], bool)
